@@ -170,6 +170,55 @@ func ruleX3(p *Prog, r *Report) {
 			"starts from Slab.ChildStorables, recognises SlabIDStorable references and descends through Storable.ChildStorables (inlined children, wrappers)",
 			fmt.Sprintf("reference walker lost part of its shape (recognises SlabIDStorable=%v, descends into nested storables=%v, starts from slab children=%v): references inside inlined children or wrappers would be missed", a, d, s))
 	}
+	// SlabIterator enumerates every in-memory slab: it ranges over the write set and over the read cache themselves
+	// (not over a collection that was filtered by owner) and applies no owner test to the keys. Temporary-address
+	// slabs live only in the write set: an iterator that skips them hides roots and unreferenced slabs from the check.
+	if w := walkers[0]; w != nil {
+		for _, layer := range []string{"deltas", "cache"} {
+			n++
+			ranged := false
+			filtered := ""
+			// the iterator itself and the storage's own helpers it calls (a key collector)
+			scopeFns := []*ssa.Function{w}
+			eachInstrDeep(w, func(_ *ssa.Function, in ssa.Instruction) {
+				if c, ok := in.(ssa.CallInstruction); ok {
+					if g := staticCallee(c); g != nil && g.Pkg == p.RootSSA && recvName(g) == storageT && g != w {
+						scopeFns = append(scopeFns, g)
+					}
+				}
+			})
+			visit := func(fn *ssa.Function, in ssa.Instruction) {
+				fr, rg, ok := rangeOverField(in)
+				if !ok || !fr.is(storageT, layer) {
+					return
+				}
+				ranged = true
+				_, keys := rangeKeyValues(rg)
+				for _, b := range fn.Blocks {
+					if ifi, ok := b.Instrs[len(b.Instrs)-1].(*ssa.If); ok {
+						if id, _, ok := p.addrTest(ifi); ok {
+							for _, k := range keys {
+								if sameValue(id, k) {
+									filtered = p.InstrPos(ifi)
+								}
+							}
+						}
+					}
+				}
+			}
+			for _, sf := range scopeFns {
+				eachInstrDeep(sf, visit)
+			}
+			r.Decide(ranged && filtered == "", R, "iterator-visits-layer:"+layer, p.Pos(w.Pos()),
+				"the slab iterator ranges over the storage's "+layer+" map itself and applies no owner filter",
+				func() string {
+					if !ranged {
+						return "neither the slab iterator nor a helper it calls ranges over the storage's " + layer + " map: the slabs of that layer are never yielded"
+					}
+					return "the keys of the storage's " + layer + " map are filtered by owner at " + filtered + " before the iterator sees them: temporary-address slabs (which live only in the write set) are never yielded, so the health check misses roots and unreferenced slabs"
+				}())
+		}
+	}
 	// getAllChildReferences: a reference that does not resolve is reported as broken, a resolved one as reference
 	if w := walkers[1]; w != nil {
 		brokenOK, refOK := false, false
@@ -489,6 +538,7 @@ func ruleX3(p *Prog, r *Report) {
 		// (The climb from leaves to roots only resolves ids that lie on such a path: a missing childless slab does not.)
 		n++
 		resolved := false
+		bypassed := false
 		if refMap != nil {
 			eachInstr(h, func(in ssa.Instruction) {
 				rg, ok := in.(*ssa.Range)
@@ -526,10 +576,19 @@ func ruleX3(p *Prog, r *Report) {
 						}
 						return false
 					}) {
-						resolved = true
+						// ... and no success exit of the check bypasses this pass (e.g. a guard on the kind of storage)
+						if successReturnAvoiding(h, nil, func(z ssa.Instruction) bool { return z == ssa.Instruction(rg) }) == nil {
+							resolved = true
+						} else {
+							bypassed = true
+						}
 					}
 				}
 			})
+		}
+		if bypassed && !resolved {
+			n++
+			r.Bad(R, "health-predicate:every-reference-resolves:unconditional", p.Pos(h.Pos()), "the pass that resolves every recorded reference can be bypassed on a success path (it is guarded by a condition, for example on the kind of storage): on that path a deleted referenced slab is accepted")
 		}
 		r.Decide(resolved, R, "health-predicate:every-reference-resolves", p.Pos(h.Pos()), "every recorded reference is looked up among the storage's slabs and a miss is an error", "a referenced slab that is missing from storage is only noticed if it lies on a path from a childless slab to a root: deleting a childless referenced slab (a leaf data slab, a large-value slab) leaves a dangling reference that the health check accepts")
 	}
